@@ -7,6 +7,7 @@ import EaselModel.Msafile.SelexLemmas
 import EaselModel.Msafile.StockholmLemmas
 import EaselModel.Msafile.StoGrowth
 import EaselModel.Msafile.StoNum
+import EaselModel.Msafile.OpenByName
 import EaselModel.Msafile.AbcTables
 import EaselModel.Msafile.GuessLemmas
 /-! # C01 — alignment input is total: property theorems (statements + glue; lemmas live in `Msafile/*Lemmas.lean`)
@@ -899,5 +900,30 @@ example : openBytes (.decl .clustal) .guess none [] = .enoalphabet := by decide 
 example : fmtBySuffix (some (str "a.b/c.sto.gz")) = some .stockholm ∧ fmtBySuffix (some (str "a.sto/c")) = none ∧
     fmtBySuffix (some (str "c.phys")) = some .phylips ∧ fmtBySuffix (some (str "c.PHY")) = none := by decide +kernel
 
+
+/-! ## `esl_msafile_Open` by name (`Msafile/OpenByName.lean`): the paths before `msafile_OpenBuffer`
+
+Whatever the file system answers for the name (`PathKind`: found nowhere — working directory and `$env` list —, a directory,
+or a regular file with any path and any content): the call ends with `eslENOTFOUND` and `afp` in an error state carrying a
+non-empty message, exactly when the name is no regular file; otherwise with the open-buffer outcome, which never faults and
+whose every later read (numeric payload included) is good. -/
+theorem open_by_name_total (nw0 : Nat) (fsel : FmtSel) (asel : AbcSel) (pk : PathKind) :
+    (∃ msg, openByName nw0 fsel asel pk = .enotfound msg ∧ msg ≠ "" ∧ ∀ p c, pk ≠ .file p c) ∨
+    (∃ r p c, openByName nw0 fsel asel pk = .opened r ∧ pk = .file p c ∧ r ≠ .fault ∧
+      ((∃ o, r = .ok o) ∨ r = .enoformat ∨ r = .enoalphabet) ∧
+      ∀ o, r = .ok o → o.cfg.valid ∧ ∀ lines, Good (o.readV lines).1) := by
+  cases pk with
+  | missing => exact Or.inl ⟨_, rfl, (by decide), fun p c h => (by cases h)⟩
+  | directory => exact Or.inl ⟨_, rfl, (by decide), fun p c h => (by cases h)⟩
+  | file p c =>
+    refine Or.inr ⟨_, p, c, rfl, rfl, openModelW_no_fault nw0 fsel asel (some p) (splitLines c), (open_total_fmtd nw0 fsel asel (some p) c).1,
+      fun o _ => ⟨opened_cfg_valid o, opened_readV_good o⟩⟩
+
+/-- non-vacuity: the three kinds of answer -/
+example : openByName 0 .auto .text .missing matches .enotfound _ := by decide
+example : openByName 0 (.decl .afa) .guess .directory matches .enotfound _ := by decide
+example : openByName 0 .auto .text (.file (str "d/x.sto") (str "# STOCKHOLM 1.0\na AC\n//\n")) = .opened (.ok ⟨.stockholm, none, 0⟩) := by
+  decide +kernel
+example : openByName 0 .auto .text (.file (str "x.dat") (str "\n")) = .opened .enoformat := by decide +kernel
 
 end EaselModel.Props.C01
